@@ -71,6 +71,21 @@ func properties() map[string]*PropertySpec {
 			nat("H_C03_dispatch3", "served", "as quick with <= 3 routes", "thorough"),
 			nat("H_C03_pairing", "paired", "serveRequests with <= 3 requests: one serve call per request with its own (writer, request) pair", ""),
 		}})
+	add(&PropertySpec{ID: "C10",
+		Functions: "(*conn).serveRequests, (*conn).readRequest, (*conn).close, newRequest, (*Mux).serve, unbindRoute handler dispatch",
+		Outside:   []string{"pipelines longer than 4 frames", "earlier handlers blocked while the Unbind arrives is covered by the schedule exploration of C08"},
+		Harnesses: []HarnessSpec{
+			nat("H_C10_unbind", "unbind done", "1..4 frames of symbolic kind with the Unbind at every position, with and without an unbind route", ""),
+		}})
+	eng := func(name, reach, bound, tiers string) HarnessSpec {
+		return HarnessSpec{Name: name, Native: false, Reach: []string{reach}, Bound: bound, Tiers: tiers}
+	}
+	add(&PropertySpec{ID: "C08",
+		Functions: "(*Server).Run, Run$1 (connection goroutine) and its deferred teardown, (*conn).serveRequests, serveRequests$1, (*conn).close, (*Server).Stop, (*Mux).serve",
+		Outside:   []string{"more than one connection per scenario (connections share no state in Run$1), more than 2 handlers in flight", "plain connections only in this check (TLS wrapping is C13/C18); file descriptors are the net stub's Close events"},
+		Harnesses: []HarnessSpec{
+			eng("H_C08_endings", "ended", "9 endings (EOF, reset, Unbind, malformed, unsupported, read timeout, panic on the read loop, Stop mid-stream, SetReadDeadline failure) x 0..2 handlers in flight held by gates x unbind route or not; deterministic eager schedule plus the gate-controlled phases", ""),
+		}})
 	add(&PropertySpec{ID: "C02",
 		Functions: "(*conn).readRequest, (*conn).readPacket, newRequest, newMessage, (*packet).{basicValidation,requestPacket,requestType,requestMessageID,simpleBindParameters,searchParmeters,modifyParameters,addParameters,deleteParameters,extendedOperationName,controlPacket,assert,assertApplicationRequest}, decodeControl, decodeAttribute, NewControl*",
 		Outside:   []string{"byte-level framing (length octets, truncation, EOC, oversize): the asn1-ber reader's error outcome by contract (DESIGN §5.1)", "panics inside asn1-ber's reader and go-ldap's DecompileFilter (it recovers)", "universal REAL and GeneralizedTime payloads (opaque values)", "trees deeper than 5 below the envelope or wider than the stated widths"},
